@@ -44,7 +44,7 @@ _S = {}
 def state():
     # a fresh pair of repls every 400 sequences: closed connections leave subscriptions behind in the long-lived server
     # and client, which slows a long campaign down quadratically
-    if 'pair' in _S and _S.get('uses', 0) >= 400:
+    if 'pair' in _S and _S.get('uses', 0) >= _S.get('recycle_after', 10 ** 9):
         _S.pop('pair').close()
     if 'pair' not in _S:
         _S['uses'] = 0
@@ -315,6 +315,7 @@ def operations(draw):
 def live_shard(seed_value, n):
     import os
     import sys
+    _S['recycle_after'] = 400 if n >= 1000 else 10 ** 9      # long campaigns only (see state())
     sys.stderr = open(os.devnull, 'w')      # klongpy prints a traceback for every remote failure
     stats = core.Stats()
     f = core.Findings("C13")
